@@ -154,9 +154,9 @@ def families(tier):
             ("forced", dict(intervals=(30,), retries=(3, 5), die=(0,), modes=("repeatingProducer",), durations=(3, 22), notify_by=6, window=False)),
             ("fsfault", dict(intervals=(3, 7), retries=(0, 2), die=(0, 9), modes=("plainProducer", "noCheck"), durations=(2,), notify_by=8,
                              max_outputs=1, max_faults=3, window=False)),
-            ("mixed", dict(intervals=(3, 7), retries=(0, 1, 2), die=(0,), modes=("mixedProducers",), durations=(2,), notify_by=10,
-                           max_outputs=2, window=False)),
-            ("ofault", dict(intervals=(7,), retries=(0, 1), die=(0, 9), modes=("repeatingProducer",), durations=(2,), notify_by=10,
+            ("mixed", dict(intervals=(3,), retries=(0, 1, 2), die=(0,), modes=("mixedProducers",), durations=(2,), outcomes=("ok",), notify_by=7,
+                           max_outputs=2, window=False, prenotify=False)),
+            ("ofault", dict(intervals=(7,), retries=(0, 1), die=(0, 9), modes=("repeatingProducer",), durations=(2,), notify_by=8,
                             max_outputs=1, max_faults=2, window=False)),
             ("plumbing", dict(intervals=(7,), retries=(0, 1), die=(0, 4), shapes=("one", "two", "sameNameEarlierLast", "sameNameEarlierFirst",
                                                                                    "twoAndEarlier", "earlierOnly"),
